@@ -58,7 +58,7 @@ def analyse_root(ctx, cfg, F, H, name, it):
         for off, c in obj.cells.items():
             if off in hid:
                 continue
-            obs.append(('arg%d*@%d' % (argi, off), c[1].deps))
+            obs.append(('arg%d*@%s' % (argi, off), c[1].deps))
         for dk, dv in obj.discr.items():
             obs.append(('arg%d*.discr' % argi, dv.deps))
     for p in r.panics:
@@ -114,6 +114,8 @@ def run(ctx):
             try:
                 nh, bad, r = analyse_root(ctx, cfg, F, H, name, it)
             except Exception as e:
+                if 'Hash' in (it.get('trait') or ''):
+                    ctx.undecided('R-DEP', cfg, name, 'generic body not analysable: %r' % (e,))
                 continue
             if nh == 0:
                 continue
